@@ -336,7 +336,7 @@ Definition parse_sheet_metadata (data : bytes) : outcome (N * list N) :=
   if len data <? 6 then Err E_LEN else
   do pos <- read_u32 data;
   do vis <- of_option (nth_error data 4);
-  if 2 <? N.land vis 63 then Err E_UNREC else
+  if 2 <? N.land vis 3 then Err E_UNREC else
   do typ <- of_option (nth_error data 5);
   if negb ((typ =? 0) || (typ =? 1) || (typ =? 2) || (typ =? 6)) then Err E_UNREC else
   do name <- parse_short_string (drop 6 data);
